@@ -20,10 +20,11 @@ def project(trace):
     last = trace["ev"][-1] if trace["ev"] else {"e": "Raise", "type": "none"}
     if last["e"] == "Res":
         res = {"raised": "none", "status": last["status"], "success": last["success"], "nfev": last["nfev"],
-               "nit": last["nit"], "x": [float(v) for v in last["x"]], "f": float(last["f"]), "cv": float(last["cv"])}
+               "nit": last["nit"], "x": [float(v) for v in last["x"]], "f": float(last["f"]), "cv": float(last["cv"]),
+               "hf": [float(v) for v in last.get("hf", [])], "hc": [float(v) for v in last.get("hc", [])]}
     else:
         res = {"raised": last.get("type", "?"), "status": -99, "success": False, "nfev": -1, "nit": -1,
-               "x": [], "f": float("nan"), "cv": float("nan")}
+               "x": [], "f": float("nan"), "cv": float("nan"), "hf": [], "hc": []}
     return {"steps": steps, "res": res}
 
 
@@ -48,7 +49,7 @@ def _encode_pair(pid, a, b, exact, prop, pure, mode, band=0.0):
                 s["flo"], s["fhi"] = s["f"] - fw, s["f"] + fw
     for side in (A, B):
         for s in side["steps"] + [side["res"]]:
-            for k in ("x", "xlo", "xhi", "f", "cv", "flo", "fhi"):
+            for k in ("x", "xlo", "xhi", "f", "cv", "flo", "fhi", "hf", "hc"):
                 if k in s:
                     add(s[k])
     rank = {v: i for i, v in enumerate(sorted(vals))}
@@ -59,7 +60,7 @@ def _encode_pair(pid, a, b, exact, prop, pure, mode, band=0.0):
         return NAN_KEY if math.isnan(v) else rank[v + 0.0]
     for side in (A, B):
         for s in side["steps"] + [side["res"]]:
-            for k in ("x", "xlo", "xhi", "f", "cv", "flo", "fhi"):
+            for k in ("x", "xlo", "xhi", "f", "cv", "flo", "fhi", "hf", "hc"):
                 if k in s:
                     s[k] = key(s[k])
     return {"id": pid, "mode": mode, "exact": bool(exact), "prop": prop, "pure": bool(pure), "a": A, "b": B}
